@@ -81,6 +81,11 @@ func c07Config(variant, servers int) string {
 			sb.WriteString("rule {\n  match { kind = \"alerting\" }\n  alerts {\n    range = \"1d\"\n    step = \"5m\"\n    resolve = \"5m\"\n  }\n}\n")
 		}
 	}
+	if variant >= 3 {
+		// the very same check as the unlocked block above, once more from a locked block that only
+		// covers one directory: there a rule comment may silence the unlocked copy, not this one
+		sb.WriteString("rule {\n  locked = true\n  match {\n    path = \"rules/.*\"\n    kind = \"recording\"\n  }\n  aggregate \".+\" {\n    keep = [\"job\"]\n    severity = \"warning\"\n  }\n}\n")
+	}
 	return sb.String()
 }
 
@@ -89,7 +94,7 @@ func drawC07(rt *rapid.T) C07Scenario {
 	sc.Sched = detsim.DrawSched(rt, 200)
 	sc.Workers = []int{1, 2, 4, 10}[rapid.IntRange(0, 3).Draw(rt, "workers")]
 	sc.Servers = []int{0, 0, 1, 1, 2}[rapid.IntRange(0, 4).Draw(rt, "servers")]
-	sc.ConfigVar = rapid.IntRange(0, 2).Draw(rt, "cfg")
+	sc.ConfigVar = rapid.IntRange(0, 3).Draw(rt, "cfg")
 	nf := rapid.IntRange(1, 3).Draw(rt, "nfiles")
 	for i := 0; i < nf; i++ {
 		strict := rapid.IntRange(0, 2).Draw(rt, "strict") > 0
@@ -541,6 +546,10 @@ func runC07(t *testing.T, sc C07Scenario, record bool) *detsim.Outcome {
 		}
 	}
 	locked := func(in instance) bool { return strings.Contains(in.String, "locked") }
+	// lockedTwin: an identical check also comes from a locked block for this path (config variant 3)
+	lockedTwin := func(in instance, path string) bool {
+		return sc.ConfigVar >= 3 && in.String == "promql/aggregate(job:true)" && strings.HasPrefix(path, "rules/")
+	}
 
 	// build the comment
 	ts := a.Now.Add(time.Duration(sc.TOffsetS) * time.Second).Truncate(time.Second)
@@ -658,15 +667,19 @@ func runC07(t *testing.T, sc C07Scenario, record bool) *detsim.Outcome {
 			continue
 		}
 		for _, in := range e.Instances {
-			if targeted(in) && locked(in) && fileLevel {
+			if targeted(in) && (locked(in) || lockedTwin(in, e.Path)) && fileLevel {
 				unspecified = true // the property speaks about rule-level comments and locked blocks only
 			}
+			if targeted(in) && lockedTwin(in, e.Path) && !fileLevel {
+				out.Probes["locked_twin_of_unlocked_check"]++
+			}
 		}
+		path := e.Path
 		want = append(want, fold(e, func(in instance) bool {
 			if !targeted(in) {
 				return false
 			}
-			if locked(in) && !fileLevel {
+			if (locked(in) || lockedTwin(in, path)) && !fileLevel {
 				return false // locked: the comment is ignored
 			}
 			return true
